@@ -496,3 +496,233 @@ Proof.
     cbn [pre ne seq_toks]. rewrite orb_true_r. unfold D. rewrite app_nil_r. cbn [app]. rewrite <- !app_assoc. cbn [app]. rewrite <- !app_assoc. reflexivity.
   - constructor; [|constructor]. unfold D. apply (stat_case_class top name gs cooked [] O); [exact (proj2 Hn)|apply gnames_nm, Hg|exact Hcne|exact Hc|apply templ_none].
 Qed.
+
+(* ------------------------------------------------------------------ variants: case objects / case classes of the companion object *)
+Definition val_stat : list c10_utok := kwt "val" :: UId (lit "serialName") :: UP 58 :: [UId (lit "String")] ++ [UP 61; UStr].
+Definition def_stat : list c10_utok := kwt "def" :: UId (lit "serialName") :: UP 58 :: [UId (lit "String")].
+
+Lemma gname_serialName : gname (lit "serialName"). Proof. apply gname_lit; reflexivity. Qed.
+Lemma gt_String : Gt TTy [UId (lit "String")]. Proof. apply Gt_name. reflexivity. Qed.
+
+Lemma val_stat_ok : StatOk false val_stat 1.
+Proof. apply stat_val_str; [exact (proj2 gname_serialName)|exact gt_String]. Qed.
+Lemma def_stat_ok : StatOk false def_stat 1.
+Proof. apply stat_def; [exact (proj2 gname_serialName)|exact gt_String]. Qed.
+
+Lemma L_extends : forall b tb, Tk b tb -> Tk (lit " extends " ++ b) (kwt "extends" :: tb).
+Proof. assert (H : CFrag (lit " extends ") [kwt "extends"]) by lit_cfrag. exact H. Qed.
+Lemma L_val_open : forall b tb, Tk b tb ->
+  Tk (lit " {" ++ sc_nl ++ [ch_tab; ch_tab] ++ lit "val serialName: String = " ++ b)
+     (UP 123 :: UNl :: kwt "val" :: UId (lit "serialName") :: UP 58 :: UId (lit "String") :: UP 61 :: tb).
+Proof.
+  assert (H : CFrag (lit " {" ++ sc_nl ++ [ch_tab; ch_tab] ++ lit "val serialName: String = ")
+                    [UP 123; UNl; kwt "val"; UId (lit "serialName"); UP 58; UId (lit "String"); UP 61]) by lit_cfrag.
+  intros b tb Hb. specialize (H b tb Hb). rewrite <- ?app_assoc in H. exact H.
+Qed.
+Lemma L_val_close : forall b tb, Tk b tb -> Tk (sc_nl ++ [ch_tab] ++ lit "}" ++ sc_nl ++ b) (UNl :: UP 125 :: UNl :: tb).
+Proof.
+  assert (H : CFrag (sc_nl ++ [ch_tab] ++ lit "}" ++ sc_nl) [UNl; UP 125; UNl]) by lit_cfrag.
+  intros b tb Hb. specialize (H b tb Hb). rewrite <- ?app_assoc in H. exact H.
+Qed.
+
+Ltac norm_app := repeat (progress (rewrite <- ?app_assoc; cbn [app])).
+
+Lemma cfrag_wire w : forallb c10_key_char w = true -> CFrag (debug_str w) [UStr].
+Proof. intros H. destruct (Proofs.C10_TSGrammar.debug_key w H) as [-> Hp]. apply cfrag_quoted, Hp. Qed.
+
+Lemma pre_false c : pre false c = seq_toks c.
+Proof. destruct c; reflexivity. Qed.
+
+(* the common part: a head (case object N / case class N[G](content: T)), extends P[G], the one-member body *)
+Lemma variant_piece docs ht hr parent pg wire :
+  forallb Proofs.C10Lex.c10_line_ok docs = true -> gname parent -> Forall gname pg -> forallb c10_key_char wire = true ->
+  (forall b tb, ssep b = true -> Tk b tb -> Tk (ht ++ b) (kwt "case" :: hr ++ tb)) ->
+  forallb nonl hr = true -> Bal hr ->
+  (forall tm n, TemplOk tm n -> StatOk false (kwt "case" :: hr ++ tm) 1) ->
+  PSd false (sc_write_comments 1 docs ++ [ch_tab] ++ ht ++ lit " extends " ++ parent ++ sc_generic_parameters pg ++ lit " {" ++ sc_nl ++
+             [ch_tab; ch_tab] ++ lit "val serialName: String = " ++ debug_str wire ++ sc_nl ++ [ch_tab] ++ lit "}" ++ sc_nl).
+Proof.
+  intros Hd Hp Hpg Hw Hht Hnl Hbal Hst.
+  set (body := seq_toks [val_stat] ++ [UP 125]).
+  set (tm := kwt "extends" :: (UId parent :: gens_toks pg) ++ UP 123 :: body).
+  assert (Htm : TemplOk tm 1).
+  { apply (templ_ext_body (UId parent :: gens_toks pg) body (fold_right plus O [1%nat])); [apply name_gens_type; assumption|].
+    apply body_ok. constructor; [exact val_stat_ok|constructor]. }
+  exists [kwt "case" :: hr ++ tm], [1%nat]. split; [|split; [discriminate|constructor; [lia|constructor]]].
+  exists (docs_raw docs ++ (kwt "case" :: hr) ++ kwt "extends" :: (UId parent :: gens_toks pg) ++
+          UP 123 :: UNl :: kwt "val" :: UId (lit "serialName") :: UP 58 :: UId (lit "String") :: UP 61 :: UStr :: UNl :: UP 125 :: [UNl]).
+  split; [|split; [|constructor; [exact (Hst tm 1%nat Htm)|constructor]]].
+  - intros b tb Hb. rewrite <- ?app_assoc. apply (sc_comments_cfrag 1 docs Hd). apply L_tab. cbn [app]. rewrite <- ?app_assoc.
+    apply Hht; [reflexivity|]. cbn [app]. apply L_extends. rewrite <- ?app_assoc. cbn [app].
+    apply name_gens_tk; [exact Hp|exact Hpg|reflexivity|]. apply L_val_open.
+    change (UStr :: ?x) with ([UStr] ++ x). apply (cfrag_wire wire Hw). apply L_val_close, Hb.
+  - intros regs p He rest. rewrite <- ?app_assoc. rewrite (nr_docs docs regs p _). cbn [app].
+    change (kwt "case" :: ?x) with ([kwt "case"] ++ x). rewrite (nr_kw (lit "case") regs p p eq_refl _).
+    rewrite <- ?app_assoc. rewrite (nr_run hr regs _ Hnl Hbal _). cbn [app].
+    change (kwt "extends" :: UId parent :: ?x) with ([kwt "extends"] ++ UId parent :: x).
+    rewrite (nr_run [kwt "extends"] regs _ eq_refl (bal_id _) _).
+    destruct (name_gens_shape parent pg) as [S1 S2]. rewrite <- ?app_assoc.
+    change (UId parent :: gens_toks pg ++ ?x) with ((UId parent :: gens_toks pg) ++ x). rewrite (nr_run _ regs _ S1 S2 _).
+    change (UP 123 :: UNl :: kwt "val" :: ?x) with ([UP 123] ++ repeat UNl 1 ++ [kwt "val"] ++ x).
+    rewrite (nr_open123 regs _ _). rewrite (nr_nls_idle 1 (true :: regs) false _).
+    rewrite (nr_kw (lit "val") (true :: regs) false false eq_refl _).
+    change (UId (lit "serialName") :: UP 58 :: UId (lit "String") :: UP 61 :: UStr :: UNl :: UP 125 :: UNl :: rest)
+      with ([UId (lit "serialName"); UP 58; UId (lit "String"); UP 61; UStr] ++ [UNl] ++ [UP 125] ++ [UNl] ++ rest).
+    rewrite (nr_run [UId (lit "serialName"); UP 58; UId (lit "String"); UP 61; UStr] (true :: regs) _ eq_refl).
+    2:{ apply bal_cons_id. apply bal_cons_p; try lia. apply bal_cons_id. apply bal_cons_p; try lia. apply bal_str. }
+    change (ce_after _ [UId (lit "serialName"); UP 58; UId (lit "String"); UP 61; UStr]) with true.
+    rewrite (nr_one_nl (true :: regs) eq_refl _). rewrite (nr_close125 regs true true _). rewrite (nr_one_nl regs He _).
+    cbn [pre ne seq_toks]. rewrite orb_true_r. unfold tm, body, val_stat. cbn [seq_toks]. norm_app. reflexivity.
+Qed.
+
+Definition c10_scg_variant_ok (v : sc_variant) : Prop :=
+  forallb Proofs.C10Lex.c10_line_ok (scv_docs v) = true /\ gname (scv_name v) /\ gname (scv_parent v) /\ Forall gname (scv_parent_generics v) /\
+  forallb c10_key_char (scv_wire v) = true /\
+  match scv_payload v with
+  | SCPayUnit => True
+  | SCPayTuple gs content ty => Forall gname gs /\ gname content /\ c10_scg_texp ty
+  | SCPayInner gs content inner args => Forall gname gs /\ gname content /\ gname inner /\ Forall gname args
+  end.
+
+Lemma L_case_object : forall b tb, Tk b tb -> Tk (lit "case object " ++ b) (kwt "case" :: kwt "object" :: tb).
+Proof. assert (H : CFrag (lit "case object ") [kwt "case"; kwt "object"]) by lit_cfrag. exact H. Qed.
+Lemma L_lparen : forall b tb, Tk b tb -> Tk (lit "(" ++ b) (UP 40 :: tb).
+Proof. assert (H : CFrag (lit "(") [UP 40]) by lit_cfrag. exact H. Qed.
+Lemma L_rparen : forall b tb, Tk b tb -> Tk (lit ")" ++ b) (UP 41 :: tb).
+Proof. assert (H : CFrag (lit ")") [UP 41]) by lit_cfrag. exact H. Qed.
+
+(* case class N[G](content: T) *)
+Definition class_hr (name : str) (gs : list str) (content : str) (tx : list c10_utok) : list c10_utok :=
+  kwt "class" :: UId name :: gens_toks gs ++ UP 40 :: params_toks [member_toks content tx None].
+Lemma class_head name gs content t tx : gname name -> Forall gname gs -> gname content -> Frag t tx -> Gt TTy tx ->
+  (forall b tb, ssep b = true -> Tk b tb ->
+     Tk ((lit "case class " ++ name ++ sc_generic_parameters gs ++ lit "(" ++ content ++ lit ": " ++ t ++ lit ")") ++ b)
+        (kwt "case" :: class_hr name gs content tx ++ tb)) /\
+  forallb nonl (class_hr name gs content tx) = true /\ Bal (class_hr name gs content tx) /\
+  (forall tm n, TemplOk tm n -> StatOk false (kwt "case" :: class_hr name gs content tx ++ tm) 1).
+Proof.
+  intros Hn Hg Hc Hf Hgt. destruct (member_shape content tx None Hgt) as [S1 S2]. split; [|split; [|split]].
+  - intros b tb _ Hb. unfold class_hr. cbn [app]. rewrite <- ?app_assoc. apply L_case_class.
+    apply name_gens_tk; [exact Hn|exact Hg|reflexivity|]. cbn [app]. apply L_lparen. cbn [params_toks member_toks dflt_toks app].
+    change (UId content :: ?x) with ([UId content] ++ x). apply (frag_ident content (proj1 Hc)); [reflexivity|]. apply L_colon.
+    rewrite <- ?app_assoc. apply Hf; [reflexivity|]. cbn [app]. apply L_rparen, Hb.
+  - unfold class_hr. cbn [forallb nonl]. rewrite forallb_app, gens_nonl. cbn [forallb nonl params_toks]. rewrite forallb_app, S1. reflexivity.
+  - unfold class_hr. apply bal_cons_id, bal_cons_id. apply bal_app; [apply gens_bal|]. cbn [params_toks]. apply bal_wrap; [right; split; reflexivity|exact S2].
+  - intros tm n Htm. unfold class_hr. cbn [app]. rewrite <- ?app_assoc. cbn [app]. rewrite <- ?app_assoc.
+    apply (stat_case_class false name gs [member_toks content tx None] tm n); [exact (proj2 Hn)|apply gnames_nm, Hg|discriminate| |exact Htm].
+    constructor; [|constructor]. apply param_ok; [exact (proj2 Hc)|exact Hgt|exact I].
+Qed.
+
+Lemma ps_variant v : c10_scg_variant_ok v -> PSd false (sc_render_variant v).
+Proof.
+  intros (Hd & Hn & Hp & Hpg & Hw & Hpay). unfold sc_render_variant.
+  destruct (scv_payload v) as [|gs content ty|gs content inner args].
+  - apply (variant_piece _ _ [kwt "object"; UId (scv_name v)]); try assumption.
+    + intros b tb Hs Hb. rewrite <- ?app_assoc. apply L_case_object. cbn [app].
+      change (UId (scv_name v) :: ?x) with ([UId (scv_name v)] ++ x). apply (frag_ident _ (proj1 Hn)); [destruct b; [discriminate|exact Hs]|exact Hb].
+    + reflexivity.
+    + apply bal_cons_id, bal_id.
+    + intros tm n Htm. exact (stat_object false true (scv_name v) tm n (proj2 Hn) Htm).
+  - destruct Hpay as (Hg & Hc & Hty). destruct (sc_show_tytext _ Hty) as (tx & Hf & Hgt).
+    destruct (class_head (scv_name v) gs content (sc_show ty) tx Hn Hg Hc Hf Hgt) as (H1 & H2 & H3 & H4).
+    exact (variant_piece _ _ _ _ _ _ Hd Hp Hpg Hw H1 H2 H3 H4).
+  - destruct Hpay as (Hg & Hc & Hi & Ha).
+    assert (Hf : Frag (inner ++ sc_generic_parameters args) (UId inner :: gens_toks args)).
+    { intros b tb Hs Hb. rewrite <- app_assoc. cbn [app].
+      destruct args as [|a0 ar].
+      - cbn [sc_generic_parameters gens_toks app]. change (UId inner :: tb) with ([UId inner] ++ tb). apply (frag_ident inner (proj1 Hi)); assumption.
+      - change (UId inner :: ?x) with ([UId inner] ++ x). apply (frag_ident inner (proj1 Hi)); [reflexivity|].
+        apply (gens_cfrag (a0 :: ar) Ha), Hb. }
+    destruct (class_head (scv_name v) gs content (inner ++ sc_generic_parameters args) _ Hn Hg Hc Hf (name_gens_type inner args Hi Ha)) as (H1 & H2 & H3 & H4).
+    refine (variant_piece _ _ _ _ _ _ Hd Hp Hpg Hw _ H2 H3 H4).
+    intros b tb Hs Hb. specialize (H1 b tb Hs Hb). rewrite <- ?app_assoc in *. exact H1.
+Qed.
+
+(* ------------------------------------------------------------------ sealed trait + companion object *)
+Lemma L_sealed_trait : forall b tb, Tk b tb -> Tk (lit "sealed trait " ++ b) (kwt "sealed" :: kwt "trait" :: tb).
+Proof. assert (H : CFrag (lit "sealed trait ") [kwt "sealed"; kwt "trait"]) by lit_cfrag. exact H. Qed.
+Lemma L_trait_body : forall b tb, Tk b tb ->
+  Tk (lit " {" ++ sc_nl ++ [ch_tab] ++ lit "def serialName: String" ++ sc_nl ++ lit "}" ++ sc_nl ++ lit "object " ++ b)
+     (UP 123 :: UNl :: kwt "def" :: UId (lit "serialName") :: UP 58 :: UId (lit "String") :: UNl :: UP 125 :: UNl :: kwt "object" :: tb).
+Proof.
+  assert (H : CFrag (lit " {" ++ sc_nl ++ [ch_tab] ++ lit "def serialName: String" ++ sc_nl ++ lit "}" ++ sc_nl ++ lit "object ")
+                    [UP 123; UNl; kwt "def"; UId (lit "serialName"); UP 58; UId (lit "String"); UNl; UP 125; UNl; kwt "object"]) by lit_cfrag.
+  intros b tb Hb. specialize (H b tb Hb). rewrite <- ?app_assoc in H. exact H.
+Qed.
+Lemma L_obj_open : forall b tb, Tk b tb -> Tk (lit " {" ++ sc_nl ++ b) (UP 123 :: UNl :: tb).
+Proof.
+  assert (H : CFrag (lit " {" ++ sc_nl) [UP 123; UNl]) by lit_cfrag. intros b tb Hb. specialize (H b tb Hb). rewrite <- ?app_assoc in H. exact H.
+Qed.
+Lemma L_obj_close : forall b tb, Tk b tb -> Tk (lit "}" ++ sc_nl ++ sc_nl ++ b) (UP 125 :: UNl :: UNl :: tb).
+Proof.
+  assert (H : CFrag (lit "}" ++ sc_nl ++ sc_nl) [UP 125; UNl; UNl]) by lit_cfrag. intros b tb Hb. specialize (H b tb Hb). rewrite <- ?app_assoc in H. exact H.
+Qed.
+
+Lemma ps_enum top docs name gs vs : forallb Proofs.C10Lex.c10_line_ok docs = true -> gname name -> Forall gname gs ->
+  Forall c10_scg_variant_ok vs -> PSd top (sc_render_decl (SCEnum docs name gs vs)).
+Proof.
+  intros Hd Hn Hg Hvs.
+  assert (Hparts : Forall (PSd false) (map sc_render_variant vs)).
+  { apply Forall_map. revert Hvs. apply Forall_impl. apply ps_variant. }
+  destruct (ps_concat false _ Hparts) as (vc & vn & (vraw & Hvf & Hvn & Hvst) & _).
+  set (tm1 := UP 123 :: seq_toks [def_stat] ++ [UP 125]).
+  set (tm2 := UP 123 :: seq_toks vc ++ [UP 125]).
+  set (D1 := kwt "sealed" :: kwt "trait" :: UId name :: gens_toks gs ++ tm1).
+  set (D2 := [] ++ kwt "object" :: UId name :: tm2).
+  exists [D1; D2], [1%nat; 1%nat]. split; [|split; [discriminate|repeat constructor]].
+  exists (docs_raw docs ++ kwt "sealed" :: kwt "trait" :: UId name :: gens_toks gs ++
+          UP 123 :: UNl :: kwt "def" :: UId (lit "serialName") :: UP 58 :: UId (lit "String") :: UNl :: UP 125 :: UNl :: kwt "object" :: UId name ::
+          UP 123 :: UNl :: vraw ++ [UP 125; UNl; UNl]).
+  split; [|split].
+  - intros b tb Hb. cbn [sc_render_decl]. rewrite <- ?app_assoc. apply (sc_comments_cfrag 0 docs Hd). cbn [app].
+    apply L_sealed_trait. rewrite <- ?app_assoc. apply name_gens_tk; [exact Hn|exact Hg|reflexivity|]. cbn [app]. apply L_trait_body.
+    change (UId name :: ?x) with ([UId name] ++ x). apply (frag_ident name (proj1 Hn)); [reflexivity|]. apply L_obj_open.
+    rewrite <- ?app_assoc. apply Hvf. cbn [app]. apply L_obj_close, Hb.
+  - intros regs p He rest. rewrite <- ?app_assoc. rewrite (nr_docs docs regs p _). cbn [app].
+    change (kwt "sealed" :: ?x) with ([kwt "sealed"] ++ x). rewrite (nr_kw (lit "sealed") regs p p eq_refl _).
+    change (kwt "trait" :: UId name :: ?x) with ([kwt "trait"] ++ UId name :: x). rewrite (nr_run [kwt "trait"] regs _ eq_refl (bal_id _) _).
+    destruct (name_gens_shape name gs) as [S1 S2]. rewrite <- ?app_assoc.
+    change (UId name :: gens_toks gs ++ ?x) with ((UId name :: gens_toks gs) ++ x). rewrite (nr_run _ regs _ S1 S2 _). cbn [app]. rewrite <- ?app_assoc.
+    change (UP 123 :: UNl :: kwt "def" :: UId (lit "serialName") :: UP 58 :: UId (lit "String") :: UNl :: UP 125 :: UNl :: kwt "object" :: UId name :: UP 123 :: UNl :: ?x)
+      with ([UP 123] ++ repeat UNl 1 ++ [kwt "def"] ++ [UId (lit "serialName"); UP 58; UId (lit "String")] ++ [UNl] ++ [UP 125] ++ [UNl] ++
+            [kwt "object"] ++ [UId name] ++ [UP 123] ++ repeat UNl 1 ++ x).
+    rewrite (nr_open123 regs _ _). rewrite (nr_nls_idle 1 (true :: regs) false _).
+    rewrite (nr_kw (lit "def") (true :: regs) false false eq_refl _).
+    rewrite (nr_run [UId (lit "serialName"); UP 58; UId (lit "String")] (true :: regs) _ eq_refl).
+    2:{ apply bal_cons_id. apply bal_cons_p; try lia. apply bal_id. }
+    change (ce_after _ [UId (lit "serialName"); UP 58; UId (lit "String")]) with true.
+    rewrite (nr_one_nl (true :: regs) eq_refl _). rewrite (nr_close125 regs true true _). rewrite (nr_one_nl regs He _).
+    rewrite (nr_kw (lit "object") regs true true eq_refl _). rewrite (nr_run [UId name] regs _ eq_refl (bal_id _) _).
+    rewrite (nr_open123 regs _ _). rewrite (nr_nls_idle 1 (true :: regs) false _).
+    rewrite (Hvn (true :: regs) false eq_refl _). rewrite pre_false. cbn [orb].
+    change ([UP 125; UNl; UNl] ++ rest) with ([UP 125] ++ [UNl; UNl] ++ rest). rewrite (nr_close125 regs _ _ _). rewrite (nr_two_nl regs He _).
+    cbn [pre ne]. rewrite orb_true_r. unfold D1, D2, tm1, tm2, def_stat. cbn [seq_toks]. norm_app. reflexivity.
+  - constructor; [|constructor; [|constructor]].
+    + unfold D1. apply (stat_trait top name gs tm1 (fold_right plus O [1%nat])); [exact (proj2 Hn)|apply gnames_nm, Hg|].
+      apply templ_body, body_ok. constructor; [exact def_stat_ok|constructor].
+    + unfold D2. apply (stat_object top false name tm2 (fold_right plus O vn)); [exact (proj2 Hn)|]. apply templ_body, body_ok. exact Hvst.
+Qed.
+
+(* ------------------------------------------------------------------ all declarations *)
+Definition c10_scg_decl_ok (d : sc_decl) : Prop :=
+  match d with
+  | SCAlias docs name gs ty => forallb Proofs.C10Lex.c10_line_ok docs = true /\ gname name /\ Forall gname gs /\ c10_scg_texp ty
+  | SCCaseClass docs name gs ms => forallb Proofs.C10Lex.c10_line_ok docs = true /\ gname name /\ Forall gname gs /\ ms <> [] /\ Forall c10_scg_member_ok ms
+  | SCEmptyClass docs name => forallb Proofs.C10Lex.c10_line_ok docs = true /\ gname name
+  | SCEnum docs name gs vs => forallb Proofs.C10Lex.c10_line_ok docs = true /\ gname name /\ Forall gname gs /\ Forall c10_scg_variant_ok vs
+  | SCHelperAliases l => l <> [] /\ Forall (fun nt : str * texp => gname (fst nt) /\ c10_scg_texp (snd nt)) l
+  end.
+(* members of the package object (top = false) or statements of the packaging / the unit (top = true) *)
+Definition decl_top (d : sc_decl) : bool := match d with SCAlias _ _ _ _ | SCHelperAliases _ => false | _ => true end.
+
+Theorem sc_render_decl_gram d : c10_scg_decl_ok d -> PSd (decl_top d) (sc_render_decl d).
+Proof.
+  destruct d as [docs name gs ty | docs name gs ms | docs name | docs name gs vs | l]; cbn [c10_scg_decl_ok decl_top].
+  - intros (H1 & H2 & H3 & H4). apply ps_alias; assumption.
+  - intros (H1 & H2 & H3 & H4 & H5). apply ps_case_class; assumption.
+  - intros (H1 & H2). apply ps_empty_class; assumption.
+  - intros (H1 & H2 & H3 & H4). apply ps_enum; assumption.
+  - intros (Hne & Hl). destruct (ps_helper_lines l Hl) as (c & n & Hps & Hlen & Hn).
+    exists (c ++ []), (n ++ []). split; [cbn [sc_render_decl]; apply ps_app; [exact Hps|apply ps_blank_line]|].
+    rewrite !app_nil_r. split; [|exact Hn]. destruct c; [destruct l; [congruence|discriminate]|discriminate].
+Qed.
